@@ -678,9 +678,11 @@ def run(res, tier):
            message='MessageIOGateway can parse and deliver a Message before all of its bytes have arrived (a partial read delivers a truncated Message or mis-frames the stream)')
     # ------------------------------------------------------------------------------------------- FRAME
     res.rule('FRAME', 'the 8-byte stream frame: body length at byte offset 0, encoding at byte offset 4, in FlattenHeaderAndMessage (writer), GetBodySize and UnflattenHeaderAndMessage (readers); GetHeaderSize() is 8', floor=3)
-    def frame_offsets(fn, verb):
+    def frame_offsets(fn0, verb):
         out = {}
-        for c in fn.walk():
+        from msa import ip as IP
+        # the header words may be written by a helper the function was split into (msa/ip.py): a value that arrives there as a parameter is looked up at the call site
+        for (fn, c) in [(g_, c) for g_ in IP.scope(fx, fn0, r'MessageIOGateway|^muscle::\w+$|^\w+$') for c in g_.walk()]:
             if c.is_call() and (c.get('q') or '').endswith('EndianConverter::' + verb):
                 ptr = c.args()[1] if verb == 'Export' else c.args()[0]
                 off = None
@@ -690,6 +692,9 @@ def run(res, tier):
                 what = None
                 if verb == 'Export':
                     v = A.strip_casts(c.args()[0])
+                    if fn is not fn0:
+                        (fn, v) = IP.resolve_arg(fx, fn, v, r'MessageIOGateway|^muscle::\w+$|^\w+$')
+                        v = A.strip_casts(v)
                     # the encoding word: a value whose definitions mention the MUSCLE_MESSAGE_ENCODING_* constants (whatever the local holding it is called)
                     defs = [v]
                     if v['k'] == 'DeclRefExpr' and v.get('d') is not None:
